@@ -43,6 +43,61 @@ func c01(c *wk.Ctx) {
 		c.Note("marshal_direction_not_defined_by_the_library", name)
 	}
 	idx := 0
+	// cold start (every shard, before anything else was encoded or decoded in this process): eight goroutines encode
+	// and decode values of their own at once, as the callers and the receive loops of an application do
+	c.Begin(idx, "cold concurrent round trips")
+	{
+		r := c.Rand(idx + c.Shard*7919)
+		type item struct {
+			t reflect.Type
+			v reflect.Value
+		}
+		sets := make([][]item, 8)
+		for gi := range sets {
+			for len(sets[gi]) < 40 {
+				t := u.Types[r.Intn(len(u.Types))]
+				if t.Kind() != reflect.Ptr {
+					continue
+				}
+				g := &gen.G{U: u, R: r, MaxDepth: 1 + r.Intn(3), ForceStrLen: -1, ImplPick: -1}
+				var v reflect.Value
+				if pan, _, _ := wk.Guard(func() { v = g.Object(t, nil, 0) }); pan {
+					continue
+				}
+				sets[gi] = append(sets[gi], item{t, v})
+			}
+		}
+		res := concurrently(8, int64(idx), func(gi int, _ *rand.Rand) string {
+			for round := 0; round < 4; round++ {
+				for _, it := range sets[gi] {
+					b, err := tl.Marshal(it.v.Interface())
+					if err != nil {
+						return fmt.Sprintf("marshal-error: %v: %v", it.t, err)
+					}
+					obj, err := tl.DecodeUnknownObject(b)
+					if err != nil {
+						return fmt.Sprintf("decode-error: %v encoded and decoded while 7 other goroutines do the same for the first time in this process: %v", it.t, err)
+					}
+					if d := gen.Equal(it.v, reflect.ValueOf(obj), it.t.String()); d != "" {
+						return fmt.Sprintf("decode-differs: %v: %s", it.t, d)
+					}
+					b2, err := tl.Marshal(it.v.Interface())
+					if err != nil || !bytes.Equal(b, b2) {
+						return fmt.Sprintf("marshal-differs: %v: second serialisation differs at offset %d (err=%v)", it.t, firstDiff(b, b2), err)
+					}
+				}
+			}
+			return ""
+		})
+		c.Count("evaluations", 8*40*4)
+		c.Count("cold_concurrent_round_trips", 8*40*4)
+		for _, m := range res {
+			if m != "" {
+				c.Viol("C01", idx, "concurrent/"+strings.SplitN(m, ":", 2)[0], m, nil)
+			}
+		}
+	}
+	idx++
 	perType := c.Pick(24, 400)
 	boundary := []int{0, 1, 2, 3, 4, 5, 6, 7, 252, 253, 254, 255, 256, 257, 65535, 65536}
 	for ti, t := range types {
@@ -187,62 +242,6 @@ func c01(c *wk.Ctx) {
 			}
 			idx++
 		}
-	}
-	// several goroutines encode and decode values of their own at once (every caller of the client does that);
-	// expected bytes are those of the sequential run
-	for k := 0; k < c.Pick(8, 120); k++ {
-		if c.Mine(idx) {
-			r := c.Rand(idx)
-			c.Begin(idx, fmt.Sprintf("concurrent %d", k))
-			type item struct {
-				t reflect.Type
-				v reflect.Value
-				b []byte
-			}
-			sets := make([][]item, 8)
-			for gi := range sets {
-				for len(sets[gi]) < 40 {
-					t := u.Types[r.Intn(len(u.Types))]
-					if t.Kind() != reflect.Ptr {
-						continue
-					}
-					g := &gen.G{U: u, R: r, MaxDepth: 1 + r.Intn(3), ForceStrLen: -1, ImplPick: -1}
-					var v reflect.Value
-					var b []byte
-					var err error
-					if pan, _, _ := wk.Guard(func() { v = g.Object(t, nil, 0); b, err = tl.Marshal(v.Interface()) }); pan || err != nil {
-						continue // the sequential cases report it
-					}
-					sets[gi] = append(sets[gi], item{t, v, append([]byte(nil), b...)})
-				}
-			}
-			res := concurrently(8, int64(idx), func(gi int, _ *rand.Rand) string {
-				for round := 0; round < 6; round++ {
-					for _, it := range sets[gi] {
-						b, err := tl.Marshal(it.v.Interface())
-						if err != nil || !bytes.Equal(b, it.b) {
-							return fmt.Sprintf("marshal-differs: %v marshalled while 7 other goroutines encode and decode: err=%v, bytes differ from the sequential result at offset %d", it.t, err, firstDiff(b, it.b))
-						}
-						obj, err := tl.DecodeUnknownObject(it.b)
-						if err != nil {
-							return fmt.Sprintf("decode-error: %v: %v", it.t, err)
-						}
-						if d := gen.Equal(it.v, reflect.ValueOf(obj), it.t.String()); d != "" {
-							return fmt.Sprintf("decode-differs: %v: %s", it.t, d)
-						}
-					}
-				}
-				return ""
-			})
-			c.Count("evaluations", 8*40*6)
-			for _, m := range res {
-				if m != "" {
-					c.Viol("C01", idx, "concurrent/"+strings.SplitN(m, ":", 2)[0], m, nil)
-				}
-			}
-			c.Distinct("concurrent", k)
-		}
-		idx++
 	}
 	// boundary: the longest legal string and the first illegal one
 	for _, n := range []int{1<<24 - 1, 1 << 24} {
